@@ -59,6 +59,7 @@ def run(ctx):
     oracles = []
     dist = {}
     big = []
+    crafted = []
     route_size = None
     keys = []
     for line in open(out1):
@@ -69,6 +70,8 @@ def run(ctx):
             oracles.append(f)
         elif f[0] == "BIG":
             big.append(f)
+        elif f[0] == "CRAFTED":
+            crafted.append(f)
         elif f[0] == "D":
             res = f[4]
             kind = ("equal" if res == "(ROk X)" else "error" if res == "RErr" else "panic" if res == "RPanic"
@@ -124,6 +127,18 @@ def run(ctx):
         if len(b) < 3 or not b[2].startswith("ok"):
             ctx.violation("implementation violates C16 on a route-table-exhausting pair %s: %s" % (b[1], b[2:]),
                           {"oracle": "big", "case": b[1:], "how": "harness section 6 (two tuples of the given lengths)"})
+    for c in crafted:
+        if len(c) >= 3 and c[2] == "ok":
+            continue
+        only_none = len(c) >= 3 and c[2].startswith("fail ") and "replace-without-sides" in c[2]
+        ctx.violation("a replace edit hides both elements of an equal pair after route-table exhaustion: %s -> %s"
+                      % (c[1], " ".join(c[2:])),
+                      {"oracle": "replace-without-sides (crafted pair, section 7 of the diff harness)",
+                       "inputs": c[1], "observed": c[2:],
+                       "how": "diff.Diff(old, new) on the two tuples described; the replace edit's payload has a "
+                              "starlark.None entry, so neither side can be reconstructed from the edits"},
+                      key="replace-none-after-route-exhaustion" if only_none else None)
+    ctx.coverage["correspondence"]["crafted_route_exhaustion_case"] = [c[1:] for c in crafted]
     bad_render = [c for c in cases if "<?" in c[1] or "<diff>" in c[1]]
     for c in bad_render[:3]:
         ctx.violation("implementation produced a diff of unexpected shape", {"case": c[2]})
@@ -147,11 +162,11 @@ def run(ctx):
     ctx.coverage["correspondence"]["cases"] = len(cases)
     ctx.coverage["correspondence"]["mismatches"] = len(mism)
     ctx.log("cases=%d mismatches=%d oracle_failures=%d big=%s" % (len(cases), len(mism), len(oracles), [b[2] for b in big]))
-    if mism and not ctx.violations:
+    if mism and not oracles:
         ex = [cases[i][2] for i in mism[:5]]
         ctx.violation("model/implementation disagree on %d cases, e.g. %s" % (len(mism), ex[0]),
                       {"theorem_or_correspondence": "correspondence Diff/Model.v <-> diff/*.go, function.go:diffEnv",
                        "disagreeing_cases": ex}, found_input=False)
-    if proof_broken and not ctx.violations:
+    if proof_broken:
         ctx.violation("a C16 theorem no longer checks", {"theorem_or_correspondence": getattr(ctx, "broken_proof", {})},
                       found_input=False)
